@@ -112,6 +112,21 @@ def gen_factory(tier):
                     yield Case("u%d" % n, [op_ctx(), op_run(PRELUDE), op_run(expr_prog(e)), op_out(), op_run(PROBE), op_out()],
                                {"kind": "logic", "e": e, "want": knot(ka), "op": op, "cls": ka})
                     n += 1
+        # 1b. the same node evaluated with a partner that changes from one evaluation to the next (null, TRUE, FALSE, null, FALSE, TRUE):
+        # what one evaluation produced must not show in the next
+        seqk = ["N", "T", "F", "N", "F", "T"]
+        pk = ("function pk(k) return boolean is begin if k == 2 or k == 6 then return true; end if; if k == 3 or k == 5 then return false; end if; "
+              "return bool(); end; ")
+        for ka, la in ATOMS.items():
+            for a in la:
+                for op in BINOPS:
+                    for side in ("left", "right"):
+                        e = ("%s %s pk(k)" % (a, op)) if side == "left" else ("pk(k) %s %s" % (op, a))
+                        want = "".join(NAME[kleene(op, ka, sk) if side == "left" else kleene(op, sk, ka)] + "\n" for sk in seqk)
+                        p = pk + "for k in 1 to 6 loop print (%s); end loop;" % e
+                        yield Case("v%d" % n, [op_ctx(), op_run(PRELUDE), op_run(p), op_out(), op_run(PROBE), op_out()],
+                                   {"kind": "cond", "e": p, "want": want, "stmt": "literal-output", "untyped": False, "vary": "%s:%s" % (op, side)})
+                        n += 1
         # 2. two expressions in one loop body: evaluating E1 must not change what E2 means
         small = []
         for ka, la in SMALL.items():
@@ -241,7 +256,10 @@ def check(case, res):
                 else:
                     want = "T\nT\nE\n" if m["want"] == "T" else ("F\nF\nE\n" if m["stmt"] == "if" else "E\n")
                 if out != want:
-                    vs.append(Violation("cond:%s" % (m["want"] if m["stmt"] != "literal-output" else "null-literal-receiver"), "condition %s gave %r, expected %r" % (m["e"], out, want), case))
+                    key = "cond:%s" % (m["want"] if m["stmt"] != "literal-output" else "null-literal-receiver")
+                    if m.get("vary"):
+                        key = "logic:varying-partner:%s" % m["vary"]
+                    vs.append(Violation(key, "condition %s gave %r, expected %r" % (m["e"], out, want), case))
         if probe_run.get("r") != "ok" or probe_out != PROBE_EXPECT:
             vs.append(Violation("after:%s" % kind, "after %s the probes gave %r %r, expected %r" % (m["e"], probe_run, probe_out, PROBE_EXPECT), case))
         return vs, True
